@@ -238,10 +238,12 @@ class TensorLeaf(Node):
         if self.big is not None:
             g = GenVec(rng, self.big)
             arr = g.array().astype(self.dtype)
+            self.last_data, self.last_layout = None, 'C'      # closed form, too large to record
             return self.space.element(arr), '(ELeaf %s)' % g.coq(), True
         arr = _rand_arr(rng, self.shape, kind).astype(self.dtype)
         order = rng.choice(['C', 'F']) if len(self.shape) else 'C'
         el = self.space.element(np.asfortranarray(arr) if order == 'F' else arr, order=order)
+        self.last_data, self.last_layout = arr.ravel().tolist(), order
         return el, '(ELeaf %s)' % qlist(arr), bool(np.any(arr))
 
 
@@ -373,6 +375,7 @@ class DiscrLeaf(Node):
         arr = _rand_arr(rng, self.shape, kind).astype(self.dtype)
         order = rng.choice(['C', 'F'])
         el = self.space.element(np.asfortranarray(arr) if order == 'F' else arr, order=order)
+        self.last_data, self.last_layout = arr.ravel().tolist(), order
         return el, '(ELeaf %s)' % qlist(arr), bool(np.any(arr))
 
 
@@ -420,7 +423,13 @@ class ProdNode(Node):
         return (el, '(ENode %s)' % C.lst([pt[1] for pt in parts]), '(ENode %s)' % C.lst([pt[2] for pt in parts]))
 
     def rand(self, rng, kind='int'):
-        parts = [c.rand(rng, kind) for c in self.children]
+        parts, datas, lays = [], [], []
+        for c in self.children:
+            parts.append(c.rand(rng, kind))
+            datas.append(c.last_data)
+            lays.append(c.last_layout)
+        self.last_data = None if any(d is None for d in datas) else datas
+        self.last_layout = lays
         el = self.space.element([pt[0] for pt in parts])
         return el, '(ENode %s)' % C.lst([pt[1] for pt in parts]), any(pt[2] for pt in parts)
 
@@ -466,7 +475,9 @@ def _add_ops(cs, rng, node, qt, nel, ops=('inner', 'norm', 'dist'), kinds=None):
     for j in range(nel):
         kind = kinds[j % len(kinds)]
         x, xq, nzx = node.rand(rng, kind)
+        xd, xl = node.last_data, node.last_layout
         y, yq, nzy = node.rand(rng, 'int' if kind != 'zero' else 'pyth')
+        yd, yl = node.last_data, node.last_layout
         for op in ops:
             if op == 'inner':
                 out, _ = impl_call(lambda: x.inner(y))
@@ -479,7 +490,8 @@ def _add_ops(cs, rng, node, qt, nel, ops=('inner', 'norm', 'dist'), kinds=None):
                 opq = 'ODist'
             term = ('{| k_q := %s; k_s := %s; k_x := %s; k_y := %s; k_op := %s; k_out := %s; k_rtol := %s |}'
                     % (qt, node.coq, xq, yq, opq, out, C.q(Fraction(node.rtol).limit_denominator(10 ** 12))))
-            desc = {'space': node.desc, 'op': op, 'x': xq[:200], 'y': yq[:200], 'impl': out}
+            desc = {'space': node.desc, 'op': op, 'x': xq[:200], 'y': yq[:200], 'impl': out,
+                    'src': node.src, 'xd': xd, 'yd': yd, 'xlayout': xl, 'ylayout': yl}
             key = (C.digest(node.desc), op, C.digest([xq, yq])) if (nzx or nzy) else None
             cs.add(term, desc, key)
 
@@ -836,6 +848,173 @@ def _kind(space):
     return 'tensor-%s-%s' % (wk, pc)
 
 
+# ---------------------------------------------------------- memory layouts
+LAYOUTS = ['C', 'F', 'Fwrap', 'T', 'strided']
+_LAY_SRC = """def lay(a, layout):
+    a = np.array(a)
+    if a.ndim == 0 or layout == 'C':
+        return np.ascontiguousarray(a)
+    if layout in ('F', 'Fwrap'):
+        return np.asfortranarray(a)
+    if layout == 'T':
+        return np.ascontiguousarray(a.T).T
+    big = np.zeros(tuple(2 * n for n in a.shape), dtype=a.dtype)
+    sl = tuple(slice(None, None, 2) for _ in a.shape)
+    big[sl] = a
+    return big[sl]
+"""
+exec(_LAY_SRC)
+
+
+def mk_elem_layout(space, data, layout):
+    """Element with the logical values `data` whose leaves wrap arrays of the given memory layout
+    (C / F via order='F' / Fortran array wrapped as-is / transposed view / strided view)."""
+    import odl
+    if isinstance(space, odl.ProductSpace):
+        lays = layout if isinstance(layout, (list, tuple)) else [layout] * len(space)
+        return space.element([mk_elem_layout(sp, d, l) for sp, d, l in zip(space.spaces, data, lays)])
+    arr = lay(np.array(data, dtype=space.dtype).reshape(space.shape), layout)   # noqa: F821
+    return space.element(arr, order='F') if (layout == 'F' and arr.ndim) else space.element(arr)
+
+
+def _dmap2(f, a, b):
+    if isinstance(a, list) and a and isinstance(a[0], list):
+        return [_dmap2(f, u, v) for u, v in zip(a, b)]
+    return [f(u, v) for u, v in zip(a, b)]
+
+
+def layout_check(space, xd, yd, k, xl, yl):
+    """norm / dist / homogeneity of elements in the given memory layouts against the independent
+    NumPy oracle evaluated on the logical (C-order) data.  -> list of (prop, ok, detail)"""
+    out = []
+    xc, yc = mk_elem(space, xd), mk_elem(space, yd)          # plain C-order copies for the oracle
+    dc = mk_elem(space, _dmap2(lambda u, v: u - v, xd, yd))
+
+    def attempt(prop, f):
+        try:
+            ok, det = f()
+        except Exception as e:
+            ok, det = False, '%s: %s' % (type(e).__name__, str(e)[:100])
+        out.append((prop, bool(ok), det))
+    x = mk_elem_layout(space, xd, xl)
+    y = mk_elem_layout(space, yd, yl)
+    attempt('norm', lambda: (_close(x.norm(), oracle_norm(space, xc)), (x.norm(), oracle_norm(space, xc))))
+    attempt('dist', lambda: (_close(x.dist(y), oracle_norm(space, dc)), (x.dist(y), oracle_norm(space, dc))))
+    attempt('homog', lambda: (_close((k * x).norm(), abs(k) * oracle_norm(space, xc)) and
+                              _close((k * x).norm(), abs(k) * x.norm()),
+                              ((k * x).norm(), abs(k) * x.norm(), abs(k) * oracle_norm(space, xc))))
+    if all(sp.exponent == 2.0 for sp in _walk(space)):
+        attempt('inner', lambda: (_close(complex(x.inner(y)), complex(oracle_inner(space, xc, yc))),
+                                  (x.inner(y), oracle_inner(space, xc, yc))))
+    return out
+
+
+def _layout_replay(src, xd, yd, k, xl, yl, prop):
+    return ("import numpy as np, odl, sys\nsys.path.insert(0, %r)\nfrom harness.c02 import layout_check\n"
+            "space = %s\nres = layout_check(space, %r, %r, %r, %r, %r)\n"
+            "observed = [r for r in res if r[0] == %r]\nok = all(r[1] for r in observed)\n"
+            % (C.VERIF, src, xd, yd, k, xl, yl, prop))
+
+
+def layout_probes(out, rng, tier):
+    """2-d / 3-d spaces with non-constant per-entry ARRAY weights: elements in C order, F order
+    (order='F' and wrapped Fortran arrays), transposed and strided views; exponents 1, 1.5, 2, 3, inf;
+    weight array itself C- or F-ordered.  Replays are plain NumPy + odl."""
+    import odl
+    thorough = tier != 'quick'
+    shapes = [(2, 3), (3, 4), (2, 3, 2)] if not thorough else [(2, 3), (3, 4), (4, 2), (2, 3, 2), (3, 2, 4)]
+    for shape, p, worder in itertools.product(shapes, [1, 1.5, 2, 3, INF], ['C', 'F']):
+        n = int(np.prod(shape))
+        w = (np.arange(n, dtype=float) % 7 + 1.0).reshape(shape)         # non-constant, asymmetric
+        a = np.array([float(rng.randint(-5, 5)) for _ in range(n)]).reshape(shape)
+        b = np.array([float(rng.randint(-5, 5)) for _ in range(n)]).reshape(shape)
+        if not np.any(a):
+            a.flat[1] = 3.0
+        k = rng.choice([-2.0, 0.5, 3.0])
+        for xl in LAYOUTS:
+            yl = rng.choice(LAYOUTS)
+            psrc = "float('inf')" if p == INF else repr(float(p))
+            head = ("import numpy as np, odl\n" + _LAY_SRC +
+                    "shape = %r; p = %s\nw = np.array(%r).reshape(shape); a = np.array(%r).reshape(shape); "
+                    "b = np.array(%r).reshape(shape); k = %r\n"
+                    "sp = odl.tensor_space(shape, weighting=lay(w, %r), exponent=p)\n"
+                    "x = sp.element(lay(a, %r)%s); y = sp.element(lay(b, %r)%s)\n"
+                    "def ref(v):\n    v = np.abs(np.asarray(v))\n"
+                    "    return float(np.max(w * v)) if p == float('inf') else float(np.sum(w * v ** p) ** (1.0 / p))\n"
+                    % (shape, psrc, w.ravel().tolist(), a.ravel().tolist(), b.ravel().tolist(), k, worder,
+                       xl, ", order='F'" if xl == 'F' else '', yl, ", order='F'" if yl == 'F' else ''))
+            checks = {
+                'norm': "observed = x.norm(); expected = ref(a)\nok = abs(observed - expected) <= 1e-9 * max(1, expected)\n",
+                'dist': "observed = x.dist(y); expected = ref(a - b)\nok = abs(observed - expected) <= 1e-9 * max(1, expected)\n",
+                'homog': "observed = (k * x).norm(); expected = abs(k) * ref(a)\n"
+                         "ok = abs(observed - expected) <= 1e-9 * max(1, expected) and "
+                         "abs(observed - abs(k) * x.norm()) <= 1e-9 * max(1, expected)\n"}
+            pc = 'pinf' if p == INF else ('p%d' % int(p) if p in (1, 2) else 'pgen')
+            for prop, chk in checks.items():
+                env = {}
+                try:
+                    exec(head + chk, env)
+                    ok = bool(env.get('ok'))
+                except Exception as e:
+                    ok = False
+                    env['observed'] = repr(e)
+                out.append(C.Probe(ok, 'tensor-array-%s-layout-%s-%s' % (pc, xl, prop),
+                                   '%s of a %s-layout element (weights %s-ordered), shape %r, exponent %r, vs NumPy '
+                                   'on the logical array' % (prop, xl, worder, shape, p), head + chk,
+                                   (env.get('observed'), env.get('expected'))))
+    # the same through discretized and product spaces (harness oracle)
+    for _ in range(6 if not thorough else 40):
+        p = rng.choice([1, 1.5, 3, INF, 2])
+        kids = [TensorLeaf(rng, p, shape=rng.choice([(2, 3), (3, 2, 2)]), wkind='array'),
+                DiscrLeaf(rng, p, wkind='array', ndim=2)]
+        node = rng.choice([kids[0], kids[1], ProdNode(rng, rng.choice([1, INF, 3]), kids)])
+        if any(isinstance(t, DiscrLeaf) and t.fragile() for t in kids):
+            continue
+        xd, yd = rand_data(rng, node.space), rand_data(rng, node.space)
+        k = rng.choice([-2.0, 0.5, 3.0])
+        for xl in LAYOUTS:
+            yl = rng.choice(LAYOUTS)
+            kk = known_key(node.space)
+            for prop, ok, det in layout_check(node.space, xd, yd, k, xl, yl):
+                key = '%s-layout-%s-%s' % (_kind(node.space), xl, prop)
+                out.append(C.Probe(ok, kk if (not ok and kk) else key,
+                                   '%s with %s-layout leaves on %s' % (prop, xl, node.src[:140]),
+                                   _layout_replay(node.src, xd, yd, k, xl, yl, prop), det))
+
+
+def search(rng, broken):
+    """A correspondence case failed but no probe produced an input: re-evaluate the independent oracle on
+    that very case (same space, data, memory layouts and exponent), then on every other layout."""
+    for kind, what, detail in broken:
+        if kind != 'correspondence' or not isinstance(detail, dict) or not detail.get('src'):
+            continue
+        if detail.get('xd') is None or detail.get('yd') is None:
+            continue
+        try:
+            import odl  # noqa: F401
+            space = eval(detail['src'], {'odl': __import__('odl'), 'np': np})
+        except Exception:
+            continue
+        xd, yd = detail['xd'], detail['yd']
+        tries = [(detail.get('xlayout', 'C'), detail.get('ylayout', 'C'))] + [(l, l) for l in LAYOUTS]
+        for xl, yl in tries:
+            for k in (-2.0, 0.5):
+                try:
+                    res = layout_check(space, xd, yd, k, xl, yl)
+                except Exception:
+                    continue
+                for prop, ok, det in res:
+                    if not ok:
+                        kk = known_key(space)
+                        if kk:
+                            continue
+                        lname = xl if isinstance(xl, str) else 'mixed'
+                        return C.Probe(False, '%s-layout-%s-%s' % (_kind(space), lname, prop),
+                                       '%s (failing correspondence case %s) vs NumPy on the logical data' % (prop, what),
+                                       _layout_replay(detail['src'], xd, yd, k, xl, yl, prop), det)
+    return None
+
+
 def probe_space(out, src, space, rng, cplx=False):
     xd, yd, zd = [rand_data(rng, space, cplx) for _ in range(3)]
     a = rng.choice([-2.0, 0.5, 3.0, -1.0, 0.0, 1.5])
@@ -925,6 +1104,8 @@ def probes(rng, tier):
             kids = [ProdNode(rng, 2 if p == 2 else rng.choice([1, 2, 3]), kids[:1] * 2 if p == 2 else kids[:1], power=False)] + kids[1:]
         node = ProdNode(rng, p, kids)
         probe_space(out, node.src, node.space, rng, cplx=True)
+    # memory layouts (C / F / wrapped Fortran / transposed / strided) x array weights x exponents
+    layout_probes(out, rng, tier)
     # (5) the recorded findings, each reproduced on its own input
     def known(key, what, snippet):
         env = {}
